@@ -82,6 +82,7 @@ class Elab:
         self.locals: dict[str, tuple] = {}
         self.subs = sub_sigs          # name -> (param types, ret type)
         self.macros = macro_sigs      # name -> (param types, ret type)
+        self.vsubs = {n: (k, ps) for n, k, ps in gen.VOID_CALLS}   # void sub-routines: name -> (pass-through parameters, value parameter types)
         self.fresh = 0
 
     # ---------------------------------------------------------------- expressions
@@ -196,6 +197,8 @@ class Elab:
                     raise Unmodelled("sizeof of an expression")
                 w = a[2][1]
                 return ("lit", f"sizeof({gen_src(a)})", (w + 7) // 8, (True, 32))
+            if name in self.vsubs:
+                raise Unmodelled(f"void call of {name} used as a value")
             if name not in self.subs:
                 raise Unmodelled(f"call of {name}")
             params, ret = self.subs[name]
@@ -222,8 +225,25 @@ class Elab:
             return ("load", spelling, t, sg, w)
         return None
 
+    def void_call(self, n):
+        """sub_routine node of a registered void sub-routine -> (name, pass-through tokens, value arguments)"""
+        ch = n.children
+        name = tok(ch[0].children[0]) if is_tree(ch[0]) else tok(ch[0])
+        if name not in self.vsubs:
+            return None
+        n_ext, params = self.vsubs[name]
+        args = [a for a in ch[1:] if a is not None]
+        if len(args) != n_ext + len(params):
+            raise Unmodelled(f"call {name} arity")
+        exts = []
+        for a in args[:n_ext]:
+            if not (is_tree(a) and a.data == "identifier" and len(a.children) == 1):
+                raise Unmodelled(f"call {name}: pass-through argument is not an identifier")
+            exts.append(tok(a.children[0]))
+        return name, exts, [self.expr(a) for a in args[n_ext:]]
+
     def stmt_expr(self, n):
-        # ({ T v = e; v; })  or ({ v = e; v; })
+        # ({ T v = e; v; })  or ({ v = e; v; })  or ({ f(...); value; }) with a void sub-routine f
         ch = [c for c in n.children if c is not None]
         if len(ch) != 2:
             raise Unmodelled("statement-expression shape")
@@ -231,6 +251,12 @@ class Elab:
         if len(items) != 1:
             raise Unmodelled("statement-expression with several statements")
         last = ch[1]
+        it0 = items[0]
+        inner0 = it0.children[0] if is_tree(it0) and it0.data == "block_item" and len(it0.children) == 1 else it0
+        if is_tree(inner0) and inner0.data == "sub_routine":
+            vc = self.void_call(inner0)
+            if vc is not None:
+                return ("seqexpr", vc[0], vc[1], vc[2], self.expr(last))
         if not (is_tree(last) and last.data == "identifier"):
             raise Unmodelled("statement-expression value is not a variable")
         v = tok(last.children[0])
@@ -397,6 +423,9 @@ class Elab:
                 name = tok(ch[0].children[0]) if is_tree(ch[0]) else tok(ch[0])
                 if name == "STORE_SLOT_CANCELLED":
                     return [("raw", "STORE_SLOT_CANCELLED(pkt, slot);")]
+                vc = self.void_call(n)
+                if vc is not None:
+                    return [("vcall", vc[0], vc[1], vc[2])]
             return [("exprstmt", self.expr(n))]
         raise Unmodelled(f"statement rule {d}")
 
